@@ -102,11 +102,16 @@ def runC15 (line : String) : String :=
     | _, _, _, _ => "bad-case"
   | ["S", r, g, b] =>
     -- bit patterns through the bit-level model of `rgb9995f::from_f32`; which zero `f32::max`
-    -- returns for `-0.0` against `+0.0` does not reach the encoded word, one choice is run
+    -- returns for `-0.0` against `+0.0` must not reach the encoded word: both extreme choices and
+    -- an alternating one are run, a difference would be printed (and disagree with the code)
     match nat? r, nat? g, nat? b with
     | some r, some g, some b =>
       if r ≥ 2 ^ 32 ∨ g ≥ 2 ^ 32 ∨ b ≥ 2 ^ 32 then "bad-case" else
-      match SharedExp.fromF32 (fun _ => false) r g b with
+      let v0 := SharedExp.fromF32 (fun _ => false) r g b
+      let v1 := SharedExp.fromF32 (fun _ => true) r g b
+      let v2 := SharedExp.fromF32 (fun i => i % 2 == 0) r g b
+      if v0 != v1 || v0 != v2 then "tie-dependent" else
+      match v0 with
       | some v => s!"px {v}"
       | none => "panic"
     | _, _, _ => "bad-case"
